@@ -38,6 +38,15 @@ theorem fact_web_commit_cannot_fail :
 theorem fact_version_is_latest_plus_one :
     Facts.C13.createOrUpdateVersion = ["-1", "latest.Version + 1"] := by decide
 
+/-- the stored rendering of a version (`GenerateDIDDocument`, hashed by `IsCommitted`) and the empty document did:nuts
+    publishes for a deactivation (`CreateDocument`, legacy `Deactivate → Update` path) carry the same, unconditional JSON-LD
+    contexts: the model's `commitNuts … .deactivated` publishes `Content.empty` and `isCommitted` finds it equal to the
+    stored deactivated version -/
+theorem fact_deactivation_renders_as_published :
+    Facts.C13.generatedDocumentContexts = Facts.C13.nutsEmptyDocumentContexts ∧
+    Facts.C13.generatedDocumentContexts = ["did.DIDContextV1URI()", "jsonld.JWS2020ContextV1URI()"] ∧
+    Facts.C13.generatedDocumentContextAssignments = 0 ∧ Facts.C13.nutsEmptyDocumentContextAssignments = 0 := by decide
+
 /-- the configuration the source describes today -/
 def cfgNow (methods : List Method) : Cfg :=
   { methods := methods
